@@ -208,11 +208,29 @@ def r3(ctx):
     run = ctx.fn("server:UdpServerThread.run")
     ups = [c for c in calls_named(run, "update") if norm(c.func) == "client.update"]
     rcfg = cfg_of(run)
+    # every live client is updated: in each sweep loop, with the outcomes that take a connection down removed
+    # (status == DISCONNECTED, timedout(...)), every way round the loop passes a client.update() call
+    from .common import leaf_cut
+    def down(t):
+        if t == "client.status == ConnectionStatus.DISCONNECTED" or t.startswith("client.timedout("):
+            return "T"
+        if t == "client.status != ConnectionStatus.DISCONNECTED":
+            return "F"
+        return None
+    cut = leaf_cut(rcfg, down)
     n_ok = 0
+    loops = {}
     for c in ups:
-        ifs = [p for p in _parents(c, run.node) if isinstance(p, ast.If)]
-        # the else-branch of the removal test: every live client is updated
-        if ifs and c in [x for s in ifs[0].orelse for x in ast.walk(s)]:
+        lp = [p for p in _parents(c, run.node) if isinstance(p, ast.For)]
+        if lp:
+            loops.setdefault(id(lp[0]), (lp[0], []))[1].append(rcfg.node_of(c).id)
+    for (lp, upd) in loops.values():
+        head = rcfg.node_of(lp).id
+        live_edge = lambda a, b_, label: not (a.id in cut and label == cut[a.id]) and label not in ("exc", "raise")
+        # from the first statement of the body, can the loop head be reached again without an update (live edges only)?
+        starts = [d for (d, l) in rcfg.succ[head] if l not in ("done",)]
+        bypass = any(head in rcfg.reachable(s0, avoid=set(upd), edge_ok=live_edge) for s0 in starts if s0 not in upd)
+        if not bypass and any(k for k in cut if lp in _parents(rcfg.nodes[k].ast, run.node)):
             n_ok += 1
     ctx.check(n_ok >= 2, "C12.R3", run, "every live connection (connected and temp) is updated each tick", witness=n_ok)
     # tick guard constant: send tick must be shorter than the keep alive interval default
